@@ -110,6 +110,7 @@ type Program struct {
 	Preds     map[string]*Pred
 	Writers   []*WriterSpec
 	typeTags  map[string]int
+	tagTypes  map[int]types.Type
 	effects   map[*ssa.Function]*effectSet
 	impls     map[string][]*ssa.Function
 }
